@@ -33,9 +33,10 @@ import (
 // Oracle represents Oracle native contract.
 type Oracle struct {
 	interop.ContractMD
-	GAS   IGAS
-	NEO   INEO
-	Desig IDesignate
+	GAS    IGAS
+	NEO    INEO
+	Desig  IDesignate
+	Policy IPolicy
 
 	oracleScript []byte
 
@@ -325,8 +326,9 @@ func (o *Oracle) finishDeferrable(ic *interop.Context, _ []stackitem.Item, popAr
 		panic(err)
 	}
 
-	origTx, _, err := ic.DAO.GetTransaction(req.OriginalTxID)
-	if err != nil {
+	// Nodes removing untraceable blocks don't have older transactions.
+	origTx, h, err := ic.DAO.GetTransaction(req.OriginalTxID)
+	if err != nil || !o.isTraceableBlock(ic, h) {
 		panic(ErrRequestNotFound)
 	}
 
@@ -355,6 +357,17 @@ func (o *Oracle) finishDeferrable(ic *interop.Context, _ []stackitem.Item, popAr
 		ic.UseSigners(nil)
 		panic(err)
 	}
+}
+
+// isTraceableBlock defines whether the block with the index specified is
+// traceable (see the same method of Ledger).
+func (o *Oracle) isTraceableBlock(ic *interop.Context, index uint32) bool {
+	height := ic.BlockHeight()
+	maxTraceableBlocks := ic.Chain.GetConfig().MaxTraceableBlocks
+	if ic.IsHardforkEnabled(config.HFEchidna) {
+		maxTraceableBlocks = o.Policy.GetMaxTraceableBlocksInternal(ic.DAO)
+	}
+	return index <= height && index+maxTraceableBlocks > height
 }
 
 func (o *Oracle) request(ic *interop.Context, args []stackitem.Item) stackitem.Item {
